@@ -467,6 +467,13 @@ impl MorselAggregateExec {
                 let Some(stats) = col.statistics() else {
                     return Ok(None);
                 };
+                // The direct-address table has no slot for the NULL group:
+                // take this path only when the footer PROVES the key column
+                // is NULL-free (the scan below used to fail the whole query
+                // with "null group keys unsupported" instead of declining).
+                if stats.null_count_opt() != Some(0) {
+                    return Ok(None);
+                }
                 use parquet::file::statistics::Statistics;
                 let (lo, hi) = match stats {
                     Statistics::Int64(s) => match (s.min_opt(), s.max_opt()) {
